@@ -615,6 +615,12 @@ func (m *monitor) onPodEntry(e *sim.Entry) {
 			if t == nil {
 				continue
 			}
+			if _, name := splitKey(pc.key); !m.everTasks[jobUID][name] {
+				// created but never recorded or adopted (crash / failed write) and gone since:
+				// the controller cannot know about this attempt
+				m.label("unrecorded-attempt-vanished")
+				continue
+			}
 			if t.Outcome == sim.OutSuccess {
 				if m.observed[pc.key+"#"+pc.uid] {
 					m.fail("C08", "created-after-success", "Pod %s created for an index whose task %s succeeded (and the controller had seen it)", p.Name, pc.key)
@@ -688,7 +694,13 @@ func (m *monitor) checkDeleteJustified(e *sim.Entry, p *corev1.Pod, job *executi
 	if tr := findTaskRef(job, p.Name); tr != nil && tr.RunningTimestamp != nil {
 		notRunning = false
 	}
-	if pending > 0 && notRunning && !now.Before(p.CreationTimestamp.Add(time.Duration(pending)*time.Second)) {
+	// "has not begun running within the pending timeout": either the controller cannot
+	// know that it runs, or it really began running only after the deadline.
+	deadline := p.CreationTimestamp.Add(time.Duration(pending) * time.Second)
+	if t := m.r.w.Truths()[keyOf(p)+"#"+string(p.UID)]; t != nil && (t.Started.IsZero() || t.Started.After(deadline)) {
+		notRunning = true
+	}
+	if pending > 0 && notRunning && !now.Before(deadline) {
 		reasons = append(reasons, "pending-timeout")
 		m.deadlineCrossed = true
 		m.label("pending-timeout-delete")
@@ -735,9 +747,10 @@ func (m *monitor) knowableFinished(job *execution.Job) *execution.JobConditionFi
 		}
 	}
 	var ts []jobtasks.Task
-	for _, ref := range cj.Status.Tasks {
-		if cp := m.ctrlCachedPod(cj.Namespace + "/" + ref.Name); cp != nil {
-			ts = append(ts, podtaskexecutor.NewPodTask(cp, nil))
+	for _, o := range m.r.w.Ctrl.Informer(sim.ResPods).GetIndexer().List() {
+		cp := o.(*corev1.Pod)
+		if ref := metav1.GetControllerOf(cp); ref != nil && ref.UID == cj.UID {
+			ts = append(ts, podtaskexecutor.NewPodTask(cp, nil)) // recorded or adoptable in this very sync
 		}
 	}
 	upd := jobutil.UpdateJobTaskRefs(cj, ts)
